@@ -732,6 +732,14 @@ class Engine:
         return r
 
     def ite_val(s, st, c, a, b, tk, bits):
+        if isinstance(a, Bundle) or isinstance(b, Bundle):
+            if isinstance(a, Bundle) and isinstance(b, Bundle) and [(ro, sz) for ro, sz, _ in a.parts] == [(ro, sz) for ro, sz, _ in b.parts]:
+                parts = []
+                for (ro, sz, x), (_, _, y) in zip(a.parts, b.parts):
+                    isr = any(isinstance(q, Fraction) or (z3.is_expr(q) and not isinstance(q, z3.BoolRef)) for q in (x, y))
+                    parts.append((ro, sz, s.A.fselect(st, c, x, y, 'double') if isr else s.ite_val(st, c, x, y, 'int', 8 * sz)))
+                return Bundle(parts, a.size)
+            raise Inconclusive('INT mode: select between differently shaped wide loads')
         if isinstance(a, PtrIte) or isinstance(b, PtrIte):
             return PtrIte(c, a, b)
         if isinstance(a, Ptr) or isinstance(b, Ptr):
